@@ -71,6 +71,9 @@ type Exec struct {
 	usedContracts map[string]bool
 	warnings      []string
 	noDef         bool
+	pdoms         map[*ssa.Function]*pdomInfo
+	noMerge       bool
+	merges        int
 }
 
 func (x *Exec) nextEpoch() int { x.epochCounter++; return x.epochCounter }
@@ -82,7 +85,7 @@ func newExec(prog *ssa.Program, pkg *ssa.Package, tpkg *packages.Package, specs 
 		oblCount: map[string]int{}, abstracted: map[string]int{}, inlined: map[string]int{},
 		maxSteps: 20000, maxPaths: 20000, strLits: map[string]string{}, tagIDs: map[string]int{},
 		loopInfo: map[*ssa.Function]*loopInfo{}, debug: os.Getenv("GOWP_DEBUG") != "",
-		usedContracts: map[string]bool{},
+		usedContracts: map[string]bool{}, pdoms: map[*ssa.Function]*pdomInfo{}, noMerge: os.Getenv("GOWP_NOMERGE") != "",
 	}
 }
 
@@ -499,6 +502,9 @@ func (x *Exec) step(st *State) []*State {
 		case "false":
 			return x.jump(st, fr, fr.block.Succs[1])
 		}
+		if handled, more := x.branchMerged(st, fr, c, fmt.Sprintf("%s:T", posStr(x.fset, i.Cond.Pos())), fmt.Sprintf("%s:F", posStr(x.fset, i.Cond.Pos()))); handled {
+			return more
+		}
 		other := st.fork()
 		st.assume(c)
 		st.path = append(st.path, fmt.Sprintf("%s:T", posStr(x.fset, i.Cond.Pos())))
@@ -655,13 +661,8 @@ func (x *Exec) strLit(st *State, s string, t types.Type) Term {
 	}
 	if !st.declared[name] {
 		st.declareOnce(name, "(declare-const "+name+" Str)")
-		st.emit(fmt.Sprintf("(assert (= (str_len %s) %s))", name, bvConst(uint64(len(s)), 64)))
-		// distinct from the other literals declared on this path
-		for other, on := range x.strLits {
-			if on != name && st.declared[on] && other != s {
-				st.emit("(assert (not (= " + name + " " + on + ")))")
-			}
-		}
+		st.declareOnce(name+"_len", fmt.Sprintf("(assert (= (str_len %s) %s))", name, bvConst(uint64(len(s)), 64)))
+		// pairwise distinctness of all literals is added when the query is built
 	}
 	return Term{S: name, Sort: sStr, Typ: t}
 }
